@@ -96,6 +96,26 @@ def write_search_cases(path, seed, tier):
         w = {x: rng.choice([0, 0, 1, 1, 2, 3, 5]) if k % 3 else rng.randint(0, 40) for x in e}
         out.append({"k": "dijkstra", "dir": directed, "g": enc_graph(n, e, directed, w),
                     "sources": sorted(rng.sample(range(n), min(n, 3)))})
+    # larger graphs with many ties in hop distance and vertex indices beyond 32 / 64: stars and
+    # wheels seen from the hub and from a leaf, complete graphs, sparse random graphs
+    for n in ([18, 40] if tier == "quick" else [18, 33, 40, 66, 100]):
+        star = {(0, v) for v in range(1, n)}
+        out.append({"k": "search", "dir": False, "g": enc_graph(n, star, False), "paths": n <= 40, "sources": [0, 1, n - 1]})
+        out.append({"k": "search", "dir": True, "g": enc_graph(n, {(n - 1, v) for v in range(n - 1)}, True), "paths": n <= 40,
+                    "sources": [n - 1, 0]})
+        wheel = star | {(v, v + 1) for v in range(1, n - 1)} | {(1, n - 1)}
+        out.append({"k": "search", "dir": False, "g": enc_graph(n, wheel, False), "paths": n <= 20, "sources": [0, 2, n - 1]})
+        e = random_graph(rng, n, 2.5 / n, True)
+        out.append({"k": "search", "dir": True, "g": enc_graph(n, e, True), "paths": False, "sources": [0, n // 2, n - 1]})
+        e = random_graph(rng, n, 2.0 / n, False)
+        out.append({"k": "search", "dir": False, "g": enc_graph(n, e, False), "paths": False, "sources": [0, n - 1]})
+        w = {x: rng.randint(0, 9) for x in e}
+        out.append({"k": "dijkstra", "dir": False, "g": enc_graph(n, e, False, w), "sources": [0, n - 1]})
+        path = {(v, v + 1) for v in range(n - 1)}
+        out.append({"k": "search", "dir": True, "g": enc_graph(n, path, True), "paths": True, "sources": [0, n // 2]})
+    for n in ([17] if tier == "quick" else [17, 24]):
+        comp = {(i, j) for i in range(n) for j in range(n) if i < j}
+        out.append({"k": "search", "dir": False, "g": enc_graph(n, comp, False), "paths": True, "sources": [0, n - 1]})
     # exponentially many shortest paths: scans must stay within V+E (C19); paths are not
     # enumerated for these (there are w^k of them)
     fams = [(4, 2), (6, 2), (5, 3)] if tier == "quick" else [(4, 2), (8, 2), (12, 2), (16, 2), (12, 3), (8, 4), (20, 2)]
@@ -167,6 +187,32 @@ def write_remap_cases(path, seed, tier):
         for c in out:
             f.write(json.dumps(c) + "\n")
     return len(out)
+
+
+def write_big_conv_cases(path, seed, tier):
+    rng = random.Random(seed + 29)
+    sizes = [(26, 90), (40, 200)] if tier == "quick" else [(26, 90), (40, 200), (70, 600), (33, 400), (64, 900)]
+    with open(path, "w") as f:
+        for (n, m) in sizes:
+            f.write(json.dumps({"k": "big_conv", "n": n, "m": m, "seed": rng.randint(1, 10 ** 6), "list": 150}) + "\n")
+    return len(sizes)
+
+
+def _big_conv(pid, tier, seed, ah, want):
+    """Constructions on 25-70 vertex random graphs; records validated by DerivedTrace.tla."""
+    d = vf.fresh_dir(os.path.join(vf.RUN, pid, "bigconv"))
+    p = os.path.join(d, "conv.ndjson")
+    write_big_conv_cases(p, seed, tier)
+    r = algo.run_ah_on_file(pid, "big-constructions", p, ah, seed,
+                            extra_plan={"families": NOLABEL + LABELED[:1] + LABELED[4:5] + ["multigraph+weighted classes"]})
+    if r.get("records"):
+        # keep only the record kinds of this property
+        with open(r["records"]) as f:
+            lines = [l for l in f if json.loads(l)["k"] in want]
+        with open(r["records"], "w") as f:
+            f.writelines(lines)
+        r["validation"] = algo.validate_derived_records(pid, "big-constructions", r["records"])
+    return r
 
 
 # ------------------------------------------------------------------ running
@@ -278,7 +324,31 @@ def c09(pid, tier, seed):
                  Cases("tou-nl4", "nolabel", "toundirected", 4, emit=False, workers=16)]
     ah = vf.build_ah("o1")
     results, violations = run_all(pid, sets, [], seed, ah)
-    return violations, coverage_of(results), ALGO_ASSUMPTIONS
+    big = _big_conv(pid, tier, seed, ah, {"conv_reverse", "conv_todirected", "conv_toundirected", "conv_edgelist"})
+    violations += _record_violations(pid, big)
+    return violations, coverage_of(results + [big]), ALGO_ASSUMPTIONS
+
+
+def _record_violations(pid, r):
+    out = []
+    os.makedirs(vf.REPLAYS, exist_ok=True)
+    a = r.get("ah")
+    if a is None and "crash" in r:
+        path = os.path.join(vf.REPLAYS, "%s-%s-crash.json" % (pid, r["cases"]))
+        with open(path, "w") as f:
+            json.dump(r["crash"], f, indent=1)
+        out.append({"replay": path, "what": "harness died on %s (rc %s)" % (r["cases"], r["crash"].get("rc"))})
+    elif a is not None:
+        for p, note in zip(a["replays"], a["fail_notes"]):
+            out.append({"replay": p, "what": note[:400]})
+    for k, rej in enumerate((r.get("validation") or {}).get("rejected", [])[:3]):
+        path = os.path.join(vf.REPLAYS, "%s-%s-record%d.json" % (pid, r["cases"], k))
+        with open(path, "w") as f:
+            json.dump({"kind": "record", "index": rej["index"], "record": rej["record"]}, f, indent=1)
+        rec = rej["record"]
+        out.append({"replay": path, "what": "record rejected by TLC: %s on a graph of %s vertices (family %s)" %
+                    (rec.get("k"), (rec.get("g") or rec.get("out") or {}).get("n"), rec.get("family"))})
+    return out
 
 
 def c10(pid, tier, seed):
@@ -293,7 +363,9 @@ def c10(pid, tier, seed):
     write_remap_cases(rp, seed, tier)
     ah = vf.build_ah("o1")
     results, violations = run_all(pid, sets, [("remap-random", rp, {"families": LABELED[:2] + LABELED[4:5]})], seed, ah)
-    return violations, coverage_of(results), ALGO_ASSUMPTIONS
+    big = _big_conv(pid, tier, seed, ah, {"conv_subgraph", "remap"})
+    violations += _record_violations(pid, big)
+    return violations, coverage_of(results + [big]), ALGO_ASSUMPTIONS
 
 
 def _search_sets(tier, bfs=True, dijkstra=True):
